@@ -1,67 +1,548 @@
-"""C22 Status and metrics documents are always well-formed (Kani on the string escapers + MIR routing check)."""
+"""C22 Status and metrics documents are always well-formed.
+
+M engine: one inductive step of the two string escapers' loops over an arbitrary remaining string (z3), a model
+of format_args templates for what they write, and a routing check that every string sink goes through them.
+"""
+import ast
 import re
+
+import z3
 
 import mir
 import mprop
-from kprop import run_kani_part
 
-SPEC = {
-    "groups": ["json"],
-    "files": ["src/utils/json.rs", "src/http/metrics.rs", "src/http/status.rs"],
-    "harnesses": {
-        "quick": ["c22_json_str_1_byte"],
-        "thorough": ["c22_json_str_2_bytes"],
-    },
-    "harness_file": {"c22_json": ("json.rs", "src/utils/json.rs"), "c22_label": ("metrics_http.rs", "src/http/metrics.rs")},
-    "timeout": {"quick": 1500, "thorough": 10000, "replay": 900},
-    "native_fallback": {"c22_json_str_1_byte": ("native_c22", "c22_native_json_str"),
-                        "c22_json_str_2_bytes": ("native_c22", "c22_native_json_str")},
-}
+JSON_F = "src/utils/json.rs"
+MET_F = "src/http/metrics.rs"
 
 
-def run(res, tier):
-    res.functions += ["routinator::utils::json::json_str (through core::fmt, real)",
-                      "routinator::http::metrics label-value escaping (through core::fmt, real)"]
-    res.bounds += [
-        "every ASCII string of exactly 1 byte (quick) / 2 bytes (thorough), written through core::fmt into a fixed "
-        "stack sink; the output is run through an RFC 8259 string-content recogniser and decoder compiled into the "
-        "harness and must decode to the input; longer strings and non-ASCII outside the bound (the escaper works "
-        "byte-wise on ASCII specials and copies everything else)",
-    ]
-    res.outside += ["whole-document rendering in http/status.rs (750 lines of builder calls) and http/metrics.rs: "
-                    "only that every string they emit goes through the escapers is checked (MIR routing check below)"]
-    res.rule = ("K: one case = one Kani harness per escaper and length; M: one case = one string sink of JsonBuilder / "
-                "LabelValue whose MIR must route the value through the escaper")
-    run_kani_part(res, SPEC, tier)
-    routing(res)
+# ---------------------------------------------------------------------------------------------
+# format_args! templates (core::fmt::Arguments::new, see library/core/src/fmt/mod.rs of the MIR toolchain)
+
+def decode_template(raw):
+    """bytes -> list of ("lit", bytes) | ("arg", index, flags|None, width|None, precision|None)."""
+    out = []
+    i = 0
+    nxt = 0
+    while True:
+        n = raw[i]
+        i += 1
+        if n == 0:
+            break
+        if n < 0x80:
+            out.append(("lit", raw[i:i + n]))
+            i += n
+        elif n == 0x80:
+            ln = int.from_bytes(raw[i:i + 2], "little")
+            out.append(("lit", raw[i + 2:i + 2 + ln]))
+            i += 2 + ln
+        elif n >= 0xC0:
+            flags = width = prec = None
+            idx = nxt
+            if n & 1:
+                flags = int.from_bytes(raw[i:i + 4], "little")
+                i += 4
+            if n & 2:
+                width = int.from_bytes(raw[i:i + 2], "little")
+                i += 2
+            if n & 4:
+                prec = int.from_bytes(raw[i:i + 2], "little")
+                i += 2
+            if n & 8:
+                idx = int.from_bytes(raw[i:i + 2], "little")
+                i += 2
+            if n & 0x30:
+                raise ValueError("indirect width / precision")
+            out.append(("arg", idx, flags, width, prec))
+            nxt = idx + 1
+        else:
+            raise ValueError("template byte 0x%02x" % n)
+    return out
 
 
-def routing(res):
-    """Every string sink of JsonBuilder calls json_str; LabelValue::label calls the label escaper."""
+def rust_bytes(lit):
+    """Rust (byte) string literal as printed in MIR -> bytes."""
+    s = lit.strip()
+    if s.startswith("const "):
+        s = s[6:]
+    is_b = s.startswith("b")
+    body = s[2:-1] if is_b else s[1:-1]
+    body = re.sub(r"\\u\{([0-9a-fA-F]+)\}", lambda m: chr(int(m.group(1), 16)), body)
+    if is_b:
+        return ast.literal_eval('b"' + body + '"')
+    return ast.literal_eval('"' + body + '"').encode("utf-8")
+
+
+ZERO_PAD = 1 << 24
+
+
+def hexdigit(nib, upper=False):
+    return z3.If(z3.ULT(nib, 10), nib + 48, nib + (55 if upper else 87))
+
+
+def render_arg(kind, ty, val, flags, width, prec):
+    """Symbolic bytes written for one placeholder: list of (condition, [BV8...]) alternatives, or None."""
+    v = val.get(())
+    if prec is not None or not mir.is_z(v):
+        return None
+    if kind == "display" and ty == "char" and v.size() == 32 and width is None:
+        return [(z3.ULT(v, 128), [z3.Extract(7, 0, v)])]          # non-ASCII is excluded by the caller's obligation
+    if kind in ("lower_hex", "upper_hex") and ty == "u8" and v.size() == 8:
+        up = kind == "upper_hex"
+        hi, lo = z3.LShR(v, 4), v & 15
+        if width is None or not (flags or 0) & ZERO_PAD:
+            if width is not None and width > 1:
+                return None
+            return [(z3.ULT(v, 16), [hexdigit(lo, up)]), (z3.UGE(v, 16), [hexdigit(hi, up), hexdigit(lo, up)])]
+        if (flags or 0) & (1 << 23):       # alternate: 0x prefix
+            return None
+        pad = [z3.BitVecVal(48, 8)] * max(0, width - 2)
+        if width >= 2:
+            return [(z3.BoolVal(True), pad + [hexdigit(hi, up), hexdigit(lo, up)])]
+        return [(z3.ULT(v, 16), [hexdigit(lo, up)]), (z3.UGE(v, 16), [hexdigit(hi, up), hexdigit(lo, up)])]
+    if kind == "display" and ty == "u8" and v.size() == 8:
+        d2, d1, d0 = z3.UDiv(v, 100) + 48, z3.URem(z3.UDiv(v, 10), 10) + 48, z3.URem(v, 10) + 48
+        if width is not None and width >= 3 and (flags or 0) & ZERO_PAD:
+            return [(z3.BoolVal(True), [z3.BitVecVal(48, 8)] * (width - 3) + [d2, d1, d0])]
+        if width is None or width <= 1:
+            return [(z3.ULT(v, 10), [d0]), (z3.And(z3.UGE(v, 10), z3.ULT(v, 100)), [d1, d0]), (z3.UGE(v, 100), [d2, d1, d0])]
+    return None
+
+
+# ---------------------------------------------------------------------------------------------
+
+class Escaper:
+    def __init__(self, name, file, fn, needs_escape, valid_chunk):
+        self.name, self.file, self.fn = name, file, fn
+        self.needs_escape = needs_escape      # BV8 -> Bool : must not appear raw
+        self.valid_chunk = valid_chunk        # (BV8 c, [BV8] chunk) -> Bool : chunk is a right encoding of c
+
+
+def B(ch):
+    return z3.BitVecVal(ord(ch), 8)
+
+
+def json_needs_escape(c):
+    return z3.Or(z3.ULT(c, 0x20), c == B('"'), c == B("\\"))
+
+
+def hexval(b):
+    return z3.If(z3.And(z3.UGE(b, 48), z3.ULE(b, 57)), b - 48,
+                 z3.If(z3.And(z3.UGE(b, 97), z3.ULE(b, 102)), b - 87,
+                       z3.If(z3.And(z3.UGE(b, 65), z3.ULE(b, 70)), b - 55, z3.BitVecVal(255, 8))))
+
+
+def json_valid_chunk(c, ch):
+    if len(ch) == 1:
+        return z3.And(ch[0] == c, z3.Not(json_needs_escape(c)))
+    if len(ch) == 2:
+        short = [(B('"'), 34), (B("\\"), 92), (B("/"), 47), (B("n"), 10), (B("r"), 13), (B("t"), 9), (B("b"), 8), (B("f"), 12)]
+        return z3.And(ch[0] == B("\\"), z3.Or([z3.And(ch[1] == e, c == v) for e, v in short]))
+    if len(ch) == 6:
+        hs = [hexval(x) for x in ch[2:]]
+        return z3.And(ch[0] == B("\\"), ch[1] == B("u"), hs[0] == 0, hs[1] == 0, z3.ULE(hs[2], 15), z3.ULE(hs[3], 15),
+                      (hs[2] << 4) | hs[3] == c)
+    return z3.BoolVal(False)
+
+
+def label_needs_escape(c):
+    return z3.Or(c == B("\\"), c == B('"'), c == B("\n"))
+
+
+def label_valid_chunk(c, ch):
+    if len(ch) == 1:
+        return z3.And(ch[0] == c, z3.Not(label_needs_escape(c)))
+    if len(ch) == 2:
+        return z3.And(ch[0] == B("\\"), z3.Or(z3.And(c == B("\\"), ch[1] == B("\\")), z3.And(c == B('"'), ch[1] == B('"')),
+                                              z3.And(c == B("\n"), ch[1] == B("n"))))
+    return z3.BoolVal(False)
+
+
+def closure_predicate(res, prog, body):
+    """char -> Bool for a `|ch: char| -> bool` closure, by running its MIR on a symbolic char."""
+    c0 = z3.BitVec("pat_char", 32)
+    E2 = mir.Engine(prog, res)
+    paths = E2.explore(body, max_visits=2, arg_values={"_2": {(): c0}})
+    alts = []
+    for p in paths:
+        if p.kind != "return":
+            raise mir.Inconclusive("pattern closure has a non-returning path")
+        r = p.ret.get(())
+        if not mir.is_z(r):
+            raise mir.Inconclusive("pattern closure result not modelled")
+        alts.append(z3.And(list(p.cond) + [r]))
+    pred = z3.simplify(z3.Or(alts))
+    return lambda c: z3.substitute(pred, (c0, c))
+
+
+def find_write_str(E, file, outer_fn):
+    """The fmt::Write::write_str body of the local writer type inside `outer_fn`, and that impl's methods."""
+    hits = [(n, bs) for n, bs in E.prog.bodies.items()
+            if re.search(r"(^|::)%s::<impl at %s:[^>]*>::write_str$" % (outer_fn, re.escape(file)), n)]
+    if len(hits) != 1:
+        return None, []
+    name = hits[0][0]
+    impl = name[:-len("::write_str")]
+    methods = sorted(set(n[len(impl) + 2:].split("::")[0] for n in E.prog.bodies if n.startswith(impl + "::")))
+    return hits[0][1][0].parse(), methods
+
+
+def check_escaper(res, esc):
+    E = mprop.engine(res)
+    body, methods = find_write_str(E, esc.file, esc.fn)
+    if body is None:
+        res.inconclusive.append("%s: no single fmt::Write::write_str inside %s" % (esc.name, esc.fn))
+        return
+    res.functions.append("%s: %s (MIR, %d blocks)" % (esc.name, body.name, len(body.blocks)))
+    bad = {}
+
+    def viol(key, what, p, mdl=None, extra=None):
+        if key in bad:
+            return
+        bad[key] = True
+        ok = native(res, esc)
+        fn = mprop.write_cex(res, "%s_%s" % (esc.name, re.sub(r"\W+", "_", key)), p, E, what, mdl, extra)
+        if ok is False:
+            res.inconclusive.append("%s: %s - not reproduced by the native single-byte replay" % (esc.name, what))
+        else:
+            res.violation("mir:%s:%s" % (esc.name, key), what + ("" if ok else " [native replay unavailable]"), fn)
+
+    if methods != ["write_str"]:
+        extra_m = [m for m in methods if m != "write_str" and not m.startswith("{closure")]
+        if extra_m:
+            viol("extra-methods", "%s's writer overrides %s besides write_str: output can bypass the escaping loop" % (esc.name, extra_m),
+                 mir.Path(mir.State(), {}, "static"))
+
+    s0 = z3.BitVec("str_start", 64)
+    nbv = z3.BitVec("str_len", 64)
+    E.solver.add(z3.ULT(s0, 1 << 40), z3.ULT(nbv, 1 << 40))
+    finds = []
+    cl = [bs[0] for n, bs in E.prog.bodies.items() if n.startswith(body.name + "::{closure#")]
+    cl_pred = {}
+    n_ev = [0]
+
+    def strval(s, n):
+        return {("s",): s, ("nbv",): n}
+
+    def m_find(E_, st, frame, callee, argvals, dest_ty):
+        cur, pat = argvals[0], argvals[1]
+        if ("nbv",) not in cur:
+            return NotImplemented
+        k = len(finds)
+        c = z3.BitVec("found_char%d" % k, 32)
+        idx = z3.BitVec("found_idx%d" % k, 64)
+        d = z3.Int("found%d" % k)
+        elems = [v for kk, v in sorted(pat.items(), key=lambda kv: str(kv[0])) if kk and kk[0][0] == "i" and mir.is_z(v)]
+        clv = pat.get(("closure",))
+        if elems:
+            pred = lambda x, elems=elems: z3.Or([x == e for e in elems])
+        elif "{closure@" in callee and len(cl) == 1:
+            if "p" not in cl_pred:
+                cl_pred["p"] = closure_predicate(res, E_.prog, cl[0].parse())
+            pred = cl_pred["p"]
+        else:
+            return NotImplemented
+        finds.append({"c": c, "idx": idx, "d": d, "pred": pred, "cur": cur})
+        st.cond.append(z3.Or(d == 0, d == 1))
+        st.cond.append(z3.Implies(d == 1, z3.And(z3.ULT(idx, cur[("nbv",)]), pred(c), z3.ULT(c, 128))))
+        st.mem[("STRBYTES", ("i", "?" + str(idx)))] = z3.Extract(7, 0, c)
+        return {("disc",): d, (("v", "Some"), ("f", 0)): idx}
+
+    def m_index_to(E_, st, frame, callee, argvals, dest_ty):
+        cur, end = argvals[0], argvals[1].get((("f", 0),))
+        if ("nbv",) not in cur or not mir.is_z(end):
+            return NotImplemented
+        st.cond.append(z3.ULE(end, cur[("nbv",)]))        # otherwise the real code panics
+        return strval(cur[("s",)], end)
+
+    def m_index_from(E_, st, frame, callee, argvals, dest_ty):
+        cur, start = argvals[0], argvals[1].get((("f", 0),))
+        if ("nbv",) not in cur or not mir.is_z(start):
+            return NotImplemented
+        st.cond.append(z3.ULE(start, cur[("nbv",)]))
+        return strval(cur[("s",)] + start, cur[("nbv",)] - start)
+
+    def m_as_bytes(E_, st, frame, callee, argvals, dest_ty):
+        cur = argvals[0]
+        if ("nbv",) not in cur:
+            return NotImplemented
+        out = dict(cur)
+        out[()] = mir.Ref(("STRBYTES",))
+        return out
+
+    def out_event(E_, st, frame, name, val):
+        where = (frame["body"].name, st.trace[-1][1] if st.trace else "")
+        st.events.append(mir.Event("OUT:" + name, [val], None, where, "call"))
+        n_ev[0] += 1
+        d = z3.Int("write_result%d" % n_ev[0])
+        st.cond.append(z3.Or(d == 0, d == 1))
+        return {("disc",): d}
+
+    def m_write_str(E_, st, frame, callee, argvals, dest_ty):
+        return out_event(E_, st, frame, "write_str", argvals[1])
+
+    def m_write_fmt(E_, st, frame, callee, argvals, dest_ty):
+        return out_event(E_, st, frame, "write_fmt", argvals[1])
+
+    def m_argument(E_, st, frame, callee, argvals, dest_ty):
+        m = re.search(r"Argument::<'_>::new_(\w+)::<(.*)>$", callee.strip())
+        if not m:
+            return NotImplemented
+        out = {("akind",): mir.Str(m.group(1)), ("aty",): mir.Str(m.group(2))}
+        for k, v in E_._through_ref(st, argvals[0]).items():
+            out[("aval",) + k] = v
+        return out
+
+    def m_arguments(E_, st, frame, callee, argvals, dest_ty):
+        out = {("tmpl",): argvals[0].get(())}
+        for k, v in E_._through_ref(st, argvals[1]).items():
+            out[("args",) + k] = v
+        return out
+
+    def m_char_from(E_, st, frame, callee, argvals, dest_ty):
+        v = argvals[0].get(())
+        if mir.is_z(v) and v.size() == 8:
+            return {(): z3.ZeroExt(24, v)}
+        return NotImplemented
+
+    def pre(E_, st, frame):
+        E_.store(st, (frame["id"] + ":_2",), strval(s0, nbv))
+
+    paths = E.explore(body, max_visits=1, pre=pre, max_paths=20000, models={
+        r"^core::str::<impl str>::find::<": m_find,
+        r"^<str as (std::ops::)?Index<(std::ops::)?RangeTo<usize>>>::index$": m_index_to,
+        r"^<str as (std::ops::)?Index<(std::ops::)?RangeFrom<usize>>>::index$": m_index_from,
+        r"^core::str::<impl str>::as_bytes$": m_as_bytes,
+        r"^std::fmt::Formatter::<'_>::write_str$": m_write_str,
+        r"^std::fmt::Formatter::<'_>::write_fmt$": m_write_fmt,
+        r"^core::fmt::rt::Argument::<'_>::new_": m_argument,
+        r"^Arguments::<'_>::new::<": m_arguments,
+        r"^<char as From<u8>>::from$": m_char_from,
+    })
+    if len(finds) < 1:
+        res.inconclusive.append("%s: the escaping loop does not search with str::find (shape not modelled)" % esc.name)
+        mprop.finish_engine(res, E)
+        return
+    f0 = finds[0]
+    c32, idx, d, pred = f0["c"], f0["idx"], f0["d"], f0["pred"]
+    c8 = z3.Extract(7, 0, c32)
+    n_cases = 0
+
+    # O1: the search pattern covers every character that must not appear raw, and only single-byte characters
+    x = z3.BitVec("any_char", 32)
+    m1 = E.model([], z3.And(z3.ULT(x, 128), esc.needs_escape(z3.Extract(7, 0, x)), z3.Not(pred(x))))
+    if m1 is not None:
+        cv = m1.eval(x, model_completion=True).as_long()
+        viol("unescaped-char", "%s does not search for character 0x%02x: it is copied verbatim although it must be escaped" % (esc.name, cv),
+             mir.Path(mir.State(), {}, "static"), m1)
+    m2 = E.model([], z3.And(z3.UGE(x, 128), z3.ULT(x, 0x110000), pred(x)))
+    if m2 is not None:
+        cv = m2.eval(x, model_completion=True).as_long()
+        viol("multibyte-pattern", "%s searches for U+%04X but escapes only the first byte at the found index" % (esc.name, cv),
+             mir.Path(mir.State(), {}, "static"), m2)
+    n_cases += 2
+
+    def outputs(p):
+        """[(kind, payload)] for the OUT events of a path; None if something is not modelled."""
+        outs = []
+        for e in p.events:
+            if not e.name.startswith("OUT:"):
+                continue
+            v = e.args[0]
+            if e.name == "OUT:write_str":
+                if ("nbv",) in v:
+                    outs.append(("slice", v))
+                elif isinstance(v.get(()), mir.Str):
+                    outs.append(("bytes", [(z3.BoolVal(True), [z3.BitVecVal(b, 8) for b in rust_bytes(v[()].s)])]))
+                else:
+                    return None
+            else:
+                t = v.get(("tmpl",))
+                if not isinstance(t, mir.Str):
+                    return None
+                try:
+                    parts = decode_template(rust_bytes(t.s))
+                except Exception:
+                    return None
+                for part in parts:
+                    if part[0] == "lit":
+                        outs.append(("bytes", [(z3.BoolVal(True), [z3.BitVecVal(b, 8) for b in part[1]])]))
+                        continue
+                    _, ai, flags, width, prec = part
+                    kind = v.get(("args", ("i", ai), "akind"))
+                    ty = v.get(("args", ("i", ai), "aty"))
+                    val = {k[3:]: x_ for k, x_ in v.items() if k[:3] == ("args", ("i", ai), "aval")}
+                    if kind is None or ty is None:
+                        return None
+                    r = render_arg(kind.s, ty.s, val, flags, width, prec)
+                    if r is None:
+                        return None
+                    outs.append(("bytes", r))
+        return outs
+
+    for i, p in enumerate(paths):
+        if p.kind not in ("return", "bound"):
+            if p.kind == "panic" and E.feasible(p.cond):
+                viol("panic", "%s's write_str can panic" % esc.name, p, E.model(p.cond))
+            continue
+        outs = outputs(p)
+        if outs is None:
+            res.inconclusive.append("%s: a write on path %d is not modelled (format argument kind)" % (esc.name, i))
+            continue
+        found = not E.feasible(p.cond, d != 1)
+        notfound = not E.feasible(p.cond, d != 0)
+        n_cases += 1
+        if notfound:
+            # nothing to escape in the rest: the rest is written verbatim, exactly once
+            if p.kind != "return":
+                viol("no-termination", "%s keeps looping although nothing is left to escape" % esc.name, p)
+                continue
+            good = len(outs) == 1 and outs[0][0] == "slice" and \
+                not E.feasible(p.cond, z3.Not(z3.And(outs[0][1][("s",)] == s0, outs[0][1][("nbv",)] == nbv)))
+            if not good:
+                viol("rest-not-copied", "%s does not write the remaining text verbatim when it contains nothing to escape" % esc.name, p)
+            continue
+        if not found:
+            continue
+        # found at idx: prefix verbatim, then an encoding of the character, then continue behind it
+        if not outs:
+            if p.kind == "bound":
+                viol("dropped", "%s drops the text before and the character at the found index" % esc.name, p)
+            continue
+        first = outs[0]
+        if first[0] != "slice" or E.feasible(p.cond, z3.Not(z3.And(first[1][("s",)] == s0, first[1][("nbv",)] == idx))):
+            viol("prefix", "%s does not first write the text before the found character verbatim" % esc.name, p)
+            continue
+        rest = outs[1:]
+        if any(k != "bytes" for k, _ in rest):
+            viol("chunk-shape", "%s writes another slice of the input while encoding one character" % esc.name, p)
+            continue
+        if p.kind == "return":
+            # an early return is only right after a failed write (Err is passed on)
+            rd = p.ret.get(("disc",))
+            if rd is None or E.feasible(p.cond, rd == 0):
+                viol("early-ok", "%s returns Ok after encoding only part of the text" % esc.name, p)
+            continue
+        # p.kind == "bound": the loop continues; all writes of this iteration succeeded
+        cur2 = {k[1:]: v for k, v in p.mem.items() if isinstance(k[0], str) and k[0].endswith(":_2") and k[0].startswith("F1:")}
+        if ("nbv",) not in cur2 or E.feasible(p.cond, z3.Not(z3.And(cur2[("s",)] == s0 + idx + 1,
+                                                                    cur2[("nbv",)] == nbv - idx - 1))):
+            viol("continue", "%s does not continue right behind the encoded character" % esc.name, p)
+            continue
+        # the chunk: every combination of alternatives
+        combos = [([], [])]
+        for _, alts in rest:
+            combos = [(cc + [ac], bb + ab) for cc, bb in combos for ac, ab in alts]
+        for cc, chunk in combos:
+            if not E.feasible(p.cond, z3.And(cc)):
+                continue
+            mdl = E.model(p.cond, z3.And(z3.And(cc), z3.Not(esc.valid_chunk(c8, chunk))))
+            if mdl is not None:
+                cv = mdl.eval(c8, model_completion=True).as_long()
+                txt = bytes(mdl.eval(b, model_completion=True).as_long() for b in chunk)
+                viol("bad-encoding", "%s encodes character 0x%02x as %r, which is not a right encoding of it" % (esc.name, cv, txt), p, mdl)
+                break
+    res.distinct += n_cases
+    res.samples.append({"escaper": esc.name, "paths": len(paths), "cases": n_cases, "pattern": "closure" if cl else "char array"})
+    mprop.finish_engine(res, E)
+
+
+_native_cache = {}
+
+
+def native(res, esc):
+    """Concrete replay: every single ASCII byte through the real escaper and an independent parser."""
+    import nativetest
+    test = "c22_native_json_str" if esc.name == "json_str" else "c22_native_label"
+    if test not in _native_cache:
+        failed, passed, out = nativetest.run_native_test("native_c22", test)
+        line = [l for l in out.splitlines() if "NATIVE-FALLBACK" in l]
+        res.notes.append("native replay %s: %s" % (test, line[0][:300] if line else "no output"))
+        _native_cache[test] = True if failed else (False if passed else None)
+    return _native_cache[test]
+
+
+# ---------------------------------------------------------------------------------------------
+
+def check_wrappers(res):
+    """The Display wrappers hand everything to the escaping writer; every string sink uses the wrappers."""
     E = mprop.engine(res)
     n = 0
     sinks = []
+    static = mir.Path(mir.State(), {}, "static")
+
+    def body_text(b):
+        b.parse()
+        return "\n".join(st for blk in b.blocks.values() for st in blk["stmts"])
+
     for name, bodies in E.prog.bodies.items():
         m = re.search(r"<impl at src/utils/json\.rs:[^>]*>::(member_str|array_str|append_key)$", name)
         if not m:
             continue
         for b in bodies:
-            b.parse()
-            txt = "\n".join(st for blk in b.blocks.values() for st in blk["stmts"])
             sinks.append(m.group(1))
             n += 1
-            if not re.search(r"json_str::<", txt):
+            if not re.search(r"json_str::<", body_text(b)):
                 res.violation("mir:json-sink-unescaped:" + m.group(1),
                               "JsonBuilder::%s writes a quoted string without json_str" % m.group(1),
-                              mprop.write_cex(res, "sink_" + m.group(1), mir.Path(mir.State(), {}, "static"), E, "no json_str call in " + name))
-    lb = E.prog.find("src/http/metrics.rs", "LabelValue", "label")
-    txt = "\n".join(s for blk in lb.blocks.values() for s in blk["stmts"])
+                              mprop.write_cex(res, "sink_" + m.group(1), static, E, "no json_str call in " + name))
+    lb = E.prog.find(MET_F, "LabelValue", "label")
     n += 1
-    if not re.search(r"label_value|escape", txt):
-        res.violation("mir:label-value-unescaped", "LabelValue::label writes the label value without escaping",
-                      mprop.write_cex(res, "label_unescaped", mir.Path(mir.State(), {}, "static"), E, "LabelValue::label formats the raw value"))
+    if not re.search(r"label_value::<", body_text(lb)):
+        ok = native(res, Escaper("label_value", MET_F, "label_value", None, None))
+        if ok is not False:
+            res.violation("mir:label-value-unescaped", "LabelValue::label writes the label value without escaping",
+                          mprop.write_cex(res, "label_unescaped", static, E, "LabelValue::label formats the raw value"))
+    # the two Display wrappers: fmt() is exactly write!(&mut Writer(f), "{}", self.0)
+    for fn_, file in (("json_str", JSON_F), ("label_value", MET_F)):
+        hits = [bs[0] for nm, bs in E.prog.bodies.items()
+                if re.search(r"(^|::)%s::<impl at %s:[^>]*>::fmt$" % (fn_, re.escape(file)), nm)]
+        n += 1
+        if len(hits) != 1:
+            res.inconclusive.append("%s: Display wrapper not found" % fn_)
+            continue
+        txt = body_text(hits[0])
+        tm = re.findall(r'const (b"(?:[^"\\]|\\.)*")', txt)
+        good = len(tm) == 1 and decode_template(rust_bytes(tm[0])) == [("arg", 0, None, None, None)] \
+            and re.search(r"Argument::<'_>::new_display::<T>", txt) \
+            and re.search(r"as std::fmt::Write>::write_fmt|as Write>::write_fmt", txt)
+        if not good:
+            res.violation("mir:%s:wrapper" % fn_, "%s's Display wrapper does not pass its value through the escaping writer with a plain {}" % fn_,
+                          mprop.write_cex(res, "wrapper_" + fn_, static, E, "fmt body: " + txt[:1500]))
     res.samples.append({"json_string_sinks": sinks})
     res.distinct += n
-    if n < 4:
-        res.inconclusive.append("routing check found only %d sinks" % n)
+    if len(sinks) < 3:
+        res.inconclusive.append("routing check found only %d JSON string sinks" % len(sinks))
     mprop.finish_engine(res, E)
+
+
+def run(res, tier):
+    res.bounds += [
+        "one iteration of the escaping loop of json_str / label_value from an arbitrary remaining string (symbolic "
+        "start, length < 2^40, symbolic found index and character): z3 shows that the text before the found "
+        "character is written verbatim, the character is written as a right encoding (every alternative of the "
+        "format template), the loop continues right behind it, and the rest is written verbatim when nothing is "
+        "found; with the search pattern covering every character that needs escaping this is the inductive step "
+        "for strings of any length",
+        "characters that need escaping are single-byte (ASCII); a pattern matching a multi-byte character is "
+        "reported, since the code escapes the byte at the found index",
+    ]
+    res.assumptions += [
+        "str::find(pattern) returns the byte index of the first character matching the pattern or None "
+        "(trusted model of the std function); str slicing and as_bytes are offset arithmetic",
+        "format_args! templates are decoded as documented in library/core/src/fmt/mod.rs of the MIR toolchain; "
+        "modelled placeholders: {} of char (ASCII), {:x}/{:X} of u8 with optional zero-padded width; anything else "
+        "is reported as inconclusive",
+        "the inner Display implementation reaches the sink only through fmt::Write::write_str (the writer types "
+        "define no other method; checked)",
+    ]
+    res.outside += ["whole-document rendering in http/status.rs (750 lines of builder calls) and http/metrics.rs: "
+                    "checked is that every string they emit goes through the escapers (JsonBuilder's string sinks, "
+                    "LabelValue::label) and that the escapers are right",
+                    "metric names, label names and HELP text (static strings in the source)",
+                    "Kani on the escapers: the 1-byte harness found the json_str defect in 644 s but cannot finish the "
+                    "proof on the repaired code within 14 GB (core::fmt padding code); abandoned for the MIR check"]
+    res.rule = ("one case = one feasible path through one loop iteration of an escaper (plus the pattern-coverage "
+                "queries and one routing check per string sink)")
+    check_escaper(res, Escaper("json_str", JSON_F, "json_str", json_needs_escape, json_valid_chunk))
+    check_escaper(res, Escaper("label_value", MET_F, "label_value", label_needs_escape, label_valid_chunk))
+    check_wrappers(res)
